@@ -513,11 +513,17 @@ def cellAt (a : Arr Cell) (idx : List Nat) : Cell := (Arr.get a idx).getD none
 
 def File.names (f : File) : List String := f.vars.map (·.name)
 
-/-- `subsetVariables(varkeys, exclude)` (no coordinate variables declared) -/
+/-- the distinct entries of a list, each at its first place (assigning twice under one dictionary key keeps one entry) -/
+def uniq : List String → List String
+  | [] => []
+  | a :: l => a :: (uniq l).filter (· != a)
+
+/-- `subsetVariables(varkeys, exclude)` (no coordinate variables declared); a key named twice is copied twice under the
+same key -/
 def subsetFile (f : File) (keys : List String) (exclude : Bool) : Except String File :=
   let keys' := if exclude then f.names.filter (fun k => !keys.contains k) else keys
   if keys'.any (fun k => (f.var? k).isNone) then .error "KeyError"
-  else .ok { f with vars := keys'.filterMap f.var? }
+  else .ok { f with vars := (uniq keys').filterMap f.var? }
 
 /-- `renameVariables(old=new)` : the renamed variable goes last; a variable already called `new` is
 replaced; renaming a variable to its own name deletes it (copy under the same key, then delete) -/
@@ -813,36 +819,85 @@ def runC06 : List String → String
     | _, _, _ => "err parse"
   | _ => "err bad-op"
 
-/-- one operation of a C01 sequence -/
-def runOp (f : File) (tok : String) : Except String File :=
+/-- one operation of a C01 sequence, parsed -/
+inductive SOp where
+  | copy
+  | slice (sels : List (String × PSel)) (newdim : String)
+  | apply (fns : List (String × Fn))
+  | subset (keys : List String) (exclude : Bool)
+  | renameVar (old new : String)
+  | renameDim (old new : String)
+  | renameDims (pairs : List (String × String))
+  | removeSingleton (dimkey : Option String)
+  | insertDim (name : String) (len : Nat) (newonly multionly : Bool) (before after : Option String)
+  | reorder (neworder : List String)
+  | stackSelf (sd : String)
+  | binopSelf (op : Op)
+  | maskGt (q : Rat)
+  | eval (target : String) (e : Expr)
+
+def parseSOp (tok : String) : Except String SOp :=
   match tok.splitOn "@" with
-  | ["copy"] => .ok f
+  | ["copy"] => .ok .copy
   | ["slice", sels, nd] => match parseSels sels with
-    | some ss => sliceFile f ss nd
+    | some ss => .ok (.slice ss nd)
     | none => .error "parse"
   | ["apply", fns] => match parseFns fns with
-    | some ff => applyFile f ff
+    | some ff => .ok (.apply ff)
     | none => .error "parse"
-  | ["subset", names, ex] => subsetFile f (parseNames names) (ex == "1")
-  | ["renamevar", o, n] => renameVarFile f o n
-  | ["renamedim", o, n] => renameDimFile f o n
-  | ["renamedims", ps] => renameDimsFile f ((ps.splitOn ";").filterMap (fun t => match t.splitOn "=" with
+  | ["subset", names, ex] => .ok (.subset (parseNames names) (ex == "1"))
+  | ["renamevar", o, n] => .ok (.renameVar o n)
+  | ["renamedim", o, n] => .ok (.renameDim o n)
+  | ["renamedims", ps] => .ok (.renameDims ((ps.splitOn ";").filterMap (fun t => match t.splitOn "=" with
       | [a, b] => some (a, b)
-      | _ => none))
-  | ["removesingleton", d] => .ok (removeSingletonFile f (if d = "_" then none else some d))
+      | _ => none)))
+  | ["removesingleton", d] => .ok (.removeSingleton (if d = "_" then none else some d))
   | ["insertdim", name, len, no, mo, b, a] => match parseNat len with
-    | some l => .ok (insertDimFile f name l (no == "1") (mo == "1")
+    | some l => .ok (.insertDim name l (no == "1") (mo == "1")
         (if b = "_" then none else some b) (if a = "_" then none else some a))
     | none => .error "parse"
-  | ["reorder", names] => reorderFile f (parseNames names)
-  | ["stackself", d] => stackFiles [f, f] d
+  | ["reorder", names] => .ok (.reorder (parseNames names))
+  | ["stackself", d] => .ok (.stackSelf d)
   | ["binopself", op] => match parseOp op with
-    | some o => binopFile o f f []
+    | some o => .ok (.binopSelf o)
     | none => .error "parse"
   | ["maskgt", q] => match parseRat q with
-    | some g => .ok (maskFile f ⟨none, Arr.leaf none, some g, none, none, none, none⟩ [] false)
+    | some g => .ok (.maskGt g)
     | none => .error "parse"
+  | ["eval", target, expr] => match parseExpr 64 (expr.splitOn ",") with
+    | some (e, []) => .ok (.eval target e)
+    | _ => .error "parse"
   | _ => .error "bad-op"
+
+/-- what an operation does to a file -/
+def SOp.run (f : File) : SOp → Except String File
+  | .copy => .ok f
+  | .slice ss nd => sliceFile f ss nd
+  | .apply fns => applyFile f fns
+  | .subset keys ex => subsetFile f keys ex
+  | .renameVar o n => renameVarFile f o n
+  | .renameDim o n => renameDimFile f o n
+  | .renameDims ps => renameDimsFile f ps
+  | .removeSingleton d => .ok (removeSingletonFile f d)
+  | .insertDim name l no mo b a => .ok (insertDimFile f name l no mo b a)
+  | .reorder names => reorderFile f names
+  | .stackSelf d => stackFiles [f, f] d
+  | .binopSelf o => binopFile o f f []
+  | .maskGt g => .ok (maskFile f ⟨none, Arr.leaf none, some g, none, none, none, none⟩ [] false)
+  | .eval t e => evalInto (evalEnv f) f t e
+
+/-- one operation of a C01 sequence, as the check writes it -/
+def runOp (f : File) (tok : String) : Except String File :=
+  match parseSOp tok with
+  | .ok o => o.run f
+  | .error e => .error e
+
+/-- the files a sequence of operations goes through (it stops at the first operation that raises) -/
+def states (f : File) : List SOp → List File
+  | [] => []
+  | o :: rest => match o.run f with
+    | .ok g => g :: states g rest
+    | .error _ => []
 
 /-- run a sequence, printing every intermediate state; stops at the first error -/
 def runSeq (f : File) : List String → List String
